@@ -439,7 +439,7 @@ def finish(evidence, agg):
 
 
 SUBCHECKS = [
-    Sub("table", table_cases(), check_table, 24000, 600000, ("asm",), ("asm", "p64", "p32")),
-    Sub("irregular", irreg_cases(), check_irreg, 4000, 80000, ("asm",), ("asm", "p64", "p32")),
-    Sub("capi", capi_cases(), check_capi, 6000, 120000, ("asm",), ("asm", "p64", "p32")),
+    Sub("table", table_cases(), check_table, 24000, 300000, ("asm",), ("asm", "p64", "p32")),
+    Sub("irregular", irreg_cases(), check_irreg, 4000, 50000, ("asm",), ("asm", "p64", "p32")),
+    Sub("capi", capi_cases(), check_capi, 6000, 70000, ("asm",), ("asm", "p64", "p32")),
 ]
